@@ -34,6 +34,7 @@ inline int use() { return facet<pa>::bump() + peek<pa>() + peek<pb>(); }
 REBIND_PRELUDE = r'''
 #include <yorel/yomm2/core.hpp>
 #include <yorel/yomm2/symbols.hpp>
+#include <yorel/yomm2/macros.hpp>
 using namespace yorel::yomm2;
 namespace c14 {
 struct A { virtual ~A() {} };
@@ -98,6 +99,15 @@ def rebind_unit():
         u.raw("struct R%d : %s::rebind<R%d>::remove<policy::type_hash> {};" % (n, S, n))
         u.add("remove|has_facet|%s" % sn, "a policy built with rebind<R>::remove<type_hash> has no type_hash facet but keeps the others",
               "static_assert(%s::has_facet<policy::type_hash> && !R%d::has_facet<policy::type_hash> && R%d::has_facet<policy::external_vptr> && R%d::has_facet<policy::error_handler>);" % (S, n, n, n))
+    # the declaration macros register the method in the policy they are given (and in the default policy when given none)
+    u.raw("template<class M> struct pol_of; template<class K, class S, class P> struct pol_of<method<K, S, P>> { using type = P; };")
+    u.raw("struct MQ : policy::release::rebind<MQ> {}; struct c14_A { virtual ~c14_A() {} };")
+    u.raw("namespace mac { YOMM2_DECLARE(int, d3, (virtual_<c14_A&>)); YOMM2_DECLARE(int, d4, (virtual_<c14_A&>), MQ); "
+          "struct S { YOMM2_STATIC_DECLARE(int, s3, (virtual_<c14_A&>)); YOMM2_STATIC_DECLARE(int, s4, (virtual_<c14_A&>), MQ); }; }")
+    for name, expr, pol in (("declare", "mac::yOMM2_SELECTOR(d3)(std::declval<c14_A&>())", "default_policy"), ("declare+policy", "mac::yOMM2_SELECTOR(d4)(std::declval<c14_A&>())", "MQ"),
+                            ("static_declare", "mac::S::yOMM2_SELECTOR(s3)(std::declval<c14_A&>())", "default_policy"), ("static_declare+policy", "mac::S::yOMM2_SELECTOR(s4)(std::declval<c14_A&>())", "MQ")):
+        u.add("macro|policy|%s" % name, "a method declared with the %s macro form belongs to policy %s" % (name, pol),
+              "static_assert(std::is_same_v<pol_of<decltype(%s)>::type, %s>);" % (expr, pol))
     return u
 
 
